@@ -21,6 +21,9 @@ class Wild(Obj):
     def member(self, ctx, name, node):
         return Wild(name=name)
 
+    def m_clear(self, I, args, n):
+        return VOID
+
 
 class EntryObj(Obj):
     cls = "MapKeyEntry"
@@ -330,9 +333,25 @@ class RemoveAllEntries(MapKernel):
         yield "children-below-the-cursor-stopped-once[C14]", z3.ForAll([qs], z3.And(
             z3.Implies(z3.And(qs >= 0, qs < s), z3.And(z3.Not(started[qs]), stops[qs] == z3.If(self.started0[qs], 1, 0))),
             z3.Implies(z3.Or(qs < 0, qs >= s), z3.And(started[qs] == self.started0[qs], stops[qs] == 0))))
+        rec = self.recorder(I)
+        if rec is not None:
+            yield "a-failure-is-recorded-exactly-when-a-child-stop-threw", rec.has(ctx) == (self.gg(ctx, "stop_throws") >= 1)
+        else:
+            yield "no-child-stop-threw-so-far", self.gg(ctx, "stop_throws") == 0
+        yield "stop-throws-count", self.gg(ctx, "stop_throws") >= 0
+
+    def recorder(self, I):
+        try:
+            return self.local_obj(I, "removal_failures")
+        except Exception:
+            return None
 
     def frame(self, I, ctx):
-        return [Loc((self.g.oid, nm)) for nm in ("started", "stops", "pulled_when", "stop_throws")]
+        fr = [Loc((self.g.oid, nm)) for nm in ("started", "stops", "pulled_when", "stop_throws")]
+        rec = self.recorder(I)
+        if rec is not None:
+            fr += [rec.loc("has"), rec.loc("first_ann")]
+        return fr
 
     @property
     def loops(self):
@@ -346,6 +365,8 @@ class RemoveAllEntries(MapKernel):
     def post(self, I, ret):
         I.ctx.oblige("ensures.every-started-child-stopped-exactly-once[C14 dynamically created children; C10 children stopped]",
                      self.all_stopped(I.ctx), kind="post-normal")
+        I.ctx.oblige("ensures.a-child-stop-failure-is-not-swallowed[C14 the original error reaches the caller]",
+                     self.gg(I.ctx, "stop_throws") == 0, kind="post-normal")
 
     def post_exc(self, I, exc):
         ctx = I.ctx
@@ -356,3 +377,125 @@ class RemoveAllEntries(MapKernel):
 
 
 KERNELS = [RemoveAllEntries]
+
+
+# ------------------------------------------------------------------ reduce_node_stop (C14 combiner children)
+
+RTU = "src/hgraph/runtime/reduce_node.cpp"
+
+
+class CombinerGraph(ChildGraphValue):
+    pass
+
+
+class CombinerEntryObj(Obj):
+    cls = "CombinerEntry"
+
+    def __init__(self, k, slot):
+        Obj.__init__(self, name="combiner")
+        self.k, self.slot = k, slot
+
+    def member(self, ctx, name, node):
+        if name == "graph":
+            return CombinerGraph(self.k, self.slot)
+        raise Gap("combiner entry member %s" % name)
+
+
+class CombinerStopView(ChildView):
+    """GraphView::stop of a combiner child: stop_impl<Nested> is a no-op on a graph that is not started"""
+
+    def m_stop(self, I, args, n):
+        ctx = I.ctx
+        if not ctx.decide(self.g(ctx, "started")[self.slot], "combiner started"):
+            return VOID
+        return ChildView.m_stop(self, I, args, n)
+
+
+CombinerGraph.m_view = lambda self, I, args, n: CombinerStopView(self.k, self.slot)
+
+
+class ReduceNodeStop(MapKernel):
+    tu = RTU
+    name = "reduce_node.cpp:reduce_node_stop"
+    fn_name = "reduce_node_stop"
+    filter = "reduce_node_stop"
+    property_ids = ("C14",)
+    title = "reduce_node_stop: every started combiner child graph is given stop exactly once"
+    bounded_fallback = 3
+
+    def bound_sizes(self, I, n):
+        I.ctx.assume(self.cap <= n)
+
+    def setup(self, I):
+        ctx = I.ctx
+        self.base(I)
+        self.cap = z3.Int("n_combiners")
+        ctx.assume(self.cap >= 0)
+        st = self.st
+        k = self
+        ctx.store[(st.oid, "combiners")] = Vec(ctx, "combiners", length=self.cap,
+                                               elem=lambda idx: Ptr(CombinerEntryObj(k, idx), k.entry_null[idx]))
+        for nm in ("evaluation_positions", "modified_leaves", "structural_leaves", "structural_positions"):
+            ctx.store[(st.oid, nm)] = Wild(name=nm)
+        ctx.store[(st.oid, "resume_candidate_plus_one")] = z3.Int("resume_candidate0")
+        ctx.store[(st.oid, "has_future_combiner_schedule")] = z3.Bool("has_future0")
+        view = self.view
+        view.m_as = lambda I_, a, n_: self.rv_obj
+        self.rv_obj = Obj("ReduceNodeView", "reduce_view")
+        self.rv_obj.m_internal_storage = lambda I_, a, n_: Ptr(st)
+        return None, {"view": view, "": z3.Int("unused_time")}
+
+    def f_cast(self, I, args, n):
+        return I.ctx.rv(args[0])
+
+    def pos(self, I):
+        return self.range_pos(I)
+
+    def inv(self, I, ctx):
+        s = self.pos(I)
+        started, stops = self.gg(ctx, "started"), self.gg(ctx, "stops")
+        yield "position-range", z3.And(s >= 0, s <= self.cap)
+        yield "combiners-below-the-cursor-stopped-once[C14]", z3.ForAll([qs], z3.And(
+            z3.Implies(z3.And(qs >= 0, qs < s), z3.And(z3.Not(started[qs]), stops[qs] == z3.If(self.started0[qs], 1, 0))),
+            z3.Implies(z3.Or(qs < 0, qs >= s), z3.And(started[qs] == self.started0[qs], stops[qs] == 0))))
+        rec = self.recorder(I)
+        if rec is not None:
+            yield "a-failure-is-recorded-exactly-when-a-combiner-stop-threw", rec.has(ctx) == (self.gg(ctx, "stop_throws") >= 1)
+        else:
+            yield "no-combiner-stop-threw-so-far", self.gg(ctx, "stop_throws") == 0
+        yield "stop-throws-count", self.gg(ctx, "stop_throws") >= 0
+
+    def recorder(self, I):
+        try:
+            return self.local_obj(I, "stop_failures")
+        except Exception:
+            return None
+
+    def frame(self, I, ctx):
+        fr = [Loc((self.g.oid, nm)) for nm in ("started", "stops", "stop_throws")]
+        rec = self.recorder(I)
+        if rec is not None:
+            fr += [rec.loc("has"), rec.loc("first_ann")]
+        return fr
+
+    @property
+    def loops(self):
+        return {0: LoopSpec(self.inv, self.frame)}
+
+    all_stopped = RemoveAllEntries.all_stopped
+
+    def post(self, I, ret):
+        I.ctx.oblige("ensures.every-started-combiner-stopped-exactly-once[C14 dynamically created children]",
+                     self.all_stopped(I.ctx), kind="post-normal")
+        I.ctx.oblige("ensures.a-combiner-stop-failure-is-not-swallowed[C14 the original error reaches the caller]",
+                     self.gg(I.ctx, "stop_throws") == 0, kind="post-normal")
+
+    def post_exc(self, I, exc):
+        ctx = I.ctx
+        ctx.oblige("raises.only-a-combiner-stop-failure", z3.BoolVal(exc.origin in ("child.stop", "FirstExceptionRecorder")),
+                   kind="post-exceptional")
+        ctx.oblige("raises.a-failing-combiner-stop-does-not-keep-the-other-combiners-from-stopping[C14 a failing stop does "
+                   "not prevent the remaining nodes from stopping]", self.all_stopped(ctx), kind="post-exceptional")
+
+
+KERNELS.append(ReduceNodeStop)
